@@ -7,7 +7,10 @@ Oracles (all independent of typhon.geodesy):
   * round trips and composed-vs-direct routes with the tolerances of the
     property statement (1 cm, 1e-7 degrees; LOS 1e-6 deg, azimuth
     1e-6 deg / sin(za));
-  * metric axioms for the two distance functions.
+  * metric axioms for the two distance functions;
+  * histories: the same oracles before, between and after generated
+    sequences of calls on ellipsoids that share the semimajor axis or the
+    eccentricity with the model (no state may leak from call to call).
 """
 import numpy as np
 from hypothesis import strategies as st
@@ -31,9 +34,22 @@ RULE = (
     "points and 360 deg aliases, evaluated as full n x n matrices, plus a "
     "common longitude shift.  An enumerated grid of special latitudes x "
     "longitudes x heights x ellipsoids is run through scalar and 1-D calls.  "
+    "History cases (and half of the conversion cases, in short form) put a "
+    "generated sequence of 1-8 calls of other public functions "
+    "(get_ellipsoid_semiminor_axis, ellipsoid_r_geocentric/_geodetic, "
+    "line_ellipsoid_intersect, geodetic2cart/cart2geodetic, ellipsoid2d, "
+    "ellipsoidcurvradius) on related ellipsoids - (a, 0), (a, e/2), (a, e'), "
+    "(k a, e), ellipsoid2d(model, inc), ellipsoidcurvradius(model, lat, az), "
+    "the other models, as tuple/list/array - before and between the identity "
+    "checks, each call compared with its own closed form; the identity "
+    "checks run at the start and at the end of the history (or only at the "
+    "end, so that the related ellipsoids are seen first) and the raw results "
+    "for the model must be bitwise unchanged.  "
     "Non-trivial = conversions: eccentric ellipsoid, or some |lat| > 1 deg "
     "with non-zero height; LOS: every case; distances: at least one pair "
-    "with 0 < arc < 180 deg.  Distinct = distinct case hash."
+    "with 0 < arc < 180 deg; histories: some step uses an ellipsoid that "
+    "shares the semimajor axis or the eccentricity with the model without "
+    "being equal to it.  Distinct = distinct case hash."
 )
 ASSUMPTIONS = [
     "|latitude| <= 88 deg for the conversions (statement); zenith angle in "
@@ -44,6 +60,10 @@ ASSUMPTIONS = [
     "docstring: 'single number or numpy array'; it stacks columns, so N-d "
     "input is not supported and not claimed)",
     "numpy.longdouble is the x87 80-bit type (eps 1.1e-19)",
+    "state that typhon.geodesy keeps between calls survives between the "
+    "cases of one shard process; the check cannot reset it, so every case "
+    "compares all results (also those for the derived ellipsoids) with "
+    "harness-side closed forms instead of relying on a fresh process",
     "float64 conditioning of the haversine formula is part of the tolerance: "
     "arc errors up to min(2e-15*tan(arc/2), 6e-8) rad near antipodes",
 ]
@@ -384,14 +404,23 @@ def check_convert(case, ctx):
     el = g.ellipsoidmodels()[name]
     convert_labels(ctx, case, el)
     kind = case["kind"]
+    # a short history of calls on related ellipsoids before / between the
+    # identity checks (see check_history)
+    steps = case.get("history") or []
+    if steps:
+        ctx.label("convert-with-history")
     if kind in ("scalar", "0d"):
         for i in range(len(case["lat"])):
+            if steps:
+                history_step(ctx, g, el, steps[i % len(steps)])
             st_ = ("0d" if kind == "0d" else ("py", "np")[i % 2])
             H = _mk([case["h"][i]], [], st_)
             LAT = _mk([case["lat"][i]], [], st_)
             LON = _mk([case["lon"][i]], [], st_)
             convert_checks(ctx, g, name, el, H, LAT, LON)
         return
+    for step in steps:
+        history_step(ctx, g, el, step)
     sh = case["shapes"]
     H = _mk(case["h"], sh["h"], "py")
     LAT = _mk(case["lat"], sh["lat"], "py")
@@ -472,6 +501,7 @@ def convert_cases(draw):
                         "h": h_values()}, common_ok=("lat", "h", "lon")))
     case["ell"] = draw(st.sampled_from(ELLIPSOIDS + ["WGS84",
                                                      "EllipsoidMars"]))
+    case["history"] = draw(st.one_of(st.just([]), history_steps(1, 3)))
     return case
 
 
@@ -493,6 +523,322 @@ def special_grid_cases():
             yield {"ell": ell, "kind": "bcast", "lat": [lat], "lon": lons,
                    "h": hs, "shapes": {"lat": [], "lon": [1, n],
                                        "h": [len(hs), 1]}}
+
+
+# --------------------------------------------------------------------------
+# histories: other public functions on related ellipsoids between the checks
+# (typhon.geodesy must not carry state from one call to the next)
+# --------------------------------------------------------------------------
+HIST_ELLS = ["sphere-same-a", "sphere-same-a", "half-e", "other-e",
+             "same-e-other-a", "ellipsoid2d", "curvradius", "curvradius",
+             "other-model", "self"]
+HIST_OPS = ["semiminor", "r_geocentric", "r_geodetic", "intersect",
+            "roundtrip", "ellipsoid2d", "curvradius", "surface-radius"]
+HIST_LATS = np.array([-88.0, -45.0, -10.0, 0.0, 33.0, 60.0, 88.0])
+
+
+def ref_curvradius(a, e, lat, az):
+    """Euler's formula 1/R = cos^2(az)/M + sin^2(az)/N in long double"""
+    e2 = LD(e) * LD(e)
+    w = 1 - e2 * np.sin(ld(lat) * D2R) ** 2
+    n = LD(a) / np.sqrt(w)
+    m = LD(a) * (1 - e2) / (w * np.sqrt(w))
+    c, s_ = np.cos(ld(az) * D2R), np.sin(ld(az) * D2R)
+    return 1 / (c * c / m + s_ * s_ / n)
+
+
+def ref_ellipsoid2d_e(a, e, inc):
+    rp = ref_r_geocentric(a, e, inc)
+    return np.sqrt(np.maximum(1 - (rp / LD(a)) ** 2, 0))
+
+
+def e2d_close(got, eref):
+    """e' = sqrt(1 - (r_p/a)^2): the float64 result carries an absolute
+    error of a few eps in e'^2 (cancellation for nearly spherical input)"""
+    return abs(float(got) ** 2 - eref ** 2) <= 4e-15 + 1e-12 * eref ** 2
+
+
+def ref_intersect(x, y, z, dx, dy, dz, a, e, alt):
+    """roots d of ((x+d dx)/a')^2 + ((y+d dy)/a')^2 + ((z+d dz)/b')^2 = 1,
+    a' = a + alt, b' = a sqrt(1-e^2) + alt; (roots or None, discriminant
+    relative to B^2)"""
+    x, y, z, dx, dy, dz = [LD(float(np.ravel(v)[0]))
+                           for v in (x, y, z, dx, dy, dz)]
+    a1 = LD(a) + LD(alt)
+    b1 = LD(a) * np.sqrt(1 - LD(e) * LD(e)) + LD(alt)
+    A = (dx * dx + dy * dy) / a1 ** 2 + dz * dz / b1 ** 2
+    B = 2 * ((x * dx + y * dy) / a1 ** 2 + z * dz / b1 ** 2)
+    C = (x * x + y * y) / a1 ** 2 + z * z / b1 ** 2 - 1
+    disc = B * B - 4 * A * C
+    rel = float(disc / (B * B + 4 * A * abs(C)))
+    if disc < 0:
+        return None, rel
+    sq = np.sqrt(disc)
+    return sorted([float((-B - sq) / (2 * A)), float((-B + sq) / (2 * A))]), rel
+
+
+def derive_ellipsoid(ctx, g, el, step):
+    """the ellipsoid a history step works on: related to the model under
+    test by a shared semimajor axis or eccentricity, produced by typhon's
+    own helpers where they exist (and checked against the closed form)"""
+    a, e = float(el[0]), float(el[1])
+    kind = step["ell"]
+    if kind == "self":
+        out = (el[0], el[1])
+    elif kind == "sphere-same-a":
+        out = (el[0], 0.0)
+    elif kind == "half-e":
+        out = (el[0], e / 2 if e > 0 else 0.0818191908426)
+    elif kind == "other-e":
+        out = (el[0], float(step["e"]))
+    elif kind == "same-e-other-a":
+        out = (a * float(step["scale"]), el[1])
+    elif kind == "other-model":
+        out = g.ellipsoidmodels()[step["other"]]
+    elif kind == "ellipsoid2d":
+        out = g.ellipsoid2d(el, step["inc"])
+        eref = float(ref_ellipsoid2d_e(a, e, step["inc"]))
+        ctx.check(len(out) == 2 and out[0] == el[0]
+                  and e2d_close(out[1], eref),
+                  "reference/ellipsoid2d", lambda: (
+                      "ellipsoid2d(%r, %r) = %r, expected (a, %r)"
+                      % (el, step["inc"], out, eref)))
+        out = (float(out[0]), float(out[1]))
+    else:
+        out = g.ellipsoidcurvradius(el, step["lat"], step["az"])
+        rref = float(ref_curvradius(a, e, step["lat"], step["az"]))
+        ctx.check(len(out) == 2 and out[1] == 0
+                  and abs(float(out[0]) - rref) <= 1e-12 * rref,
+                  "reference/ellipsoidcurvradius", lambda: (
+                      "ellipsoidcurvradius(%r, %r, %r) = %r, expected "
+                      "(%r, 0)" % (el, step["lat"], step["az"], out, rref)))
+        out = (float(out[0]), float(out[1]))
+    A, E = float(out[0]), float(out[1])
+    if (A, E) != (a, e):
+        if A == a:
+            ctx.label("hist-same-a-other-e")
+        elif E == e and e > 0:
+            ctx.label("hist-same-e-other-a")
+    form = step["as"]
+    arg = (A, E) if form == "tuple" else ([A, E] if form == "list"
+                                          else np.array([A, E]))
+    return arg, A, E
+
+
+def history_step(ctx, g, el, step):
+    """one step of a history: a public function on a derived ellipsoid,
+    compared with its own closed form"""
+    arg, A, E = derive_ellipsoid(ctx, g, el, step)
+    op = step["op"]
+    ctx.label("hist-ell-" + step["ell"], "hist-op-" + op)
+
+    def info():
+        return "history step %s on %s = (%r, %r) [model %r]" % (
+            op, step["ell"], A, E, tuple(el))
+
+    if op == "semiminor":
+        b = g.get_ellipsoid_semiminor_axis(arg)
+        bref = float(LD(A) * np.sqrt(1 - LD(E) * LD(E)))
+        ctx.check(abs(float(b) - bref) <= 1e-14 * bref,
+                  "reference/get_ellipsoid_semiminor_axis", lambda: (
+                      "%s: %r, expected %r" % (info(), b, bref)))
+    elif op in ("r_geocentric", "r_geodetic", "surface-radius"):
+        lats = HIST_LATS + float(step["lat"]) / 1000.0
+        if op != "r_geodetic":
+            r = g.ellipsoid_r_geocentric(arg, lats)
+            err = _maxerr(r, ref_r_geocentric(A, E, lats)) / A
+            ctx.check(err <= 1e-12, "reference/ellipsoid_r_geocentric",
+                      lambda: "%s: relative error %.3e (%r)" % (
+                          info(), err, np.asarray(r).tolist()))
+        if op != "r_geocentric":
+            r = g.ellipsoid_r_geodetic(arg, lats)
+            err = _maxerr(r, ref_r_geodetic(A, E, lats)) / A
+            ctx.check(err <= 1e-12, "reference/ellipsoid_r_geodetic",
+                      lambda: "%s: relative error %.3e (%r)" % (
+                          info(), err, np.asarray(r).tolist()))
+        if op == "surface-radius":
+            r0, latc, _ = g.geodetic2geocentric(np.zeros(lats.shape), lats,
+                                                float(step["lon"]), arg)
+            e1 = float(np.max(np.abs(r0 - g.ellipsoid_r_geodetic(arg, lats))
+                              / r0))
+            e2 = float(np.max(np.abs(r0 - g.ellipsoid_r_geocentric(arg, latc))
+                              / r0))
+            ctx.check(e1 <= 1e-9, "radius/ellipsoid_r_geodetic", lambda: (
+                "%s: |r(h=0) - ellipsoid_r_geodetic| / r = %.3e"
+                % (info(), e1)))
+            ctx.check(e2 <= 1e-9, "radius/ellipsoid_r_geocentric", lambda: (
+                "%s: |r(h=0) - ellipsoid_r_geocentric(lat_c)| / r = %.3e"
+                % (info(), e2)))
+    elif op == "intersect":
+        pos = g.geocentricposlos2cart(A + 600e3, float(step["lat"]),
+                                      float(step["lon"]), float(step["za"]),
+                                      float(step["az"]) % 360.0 - 180.0)
+        alt = float(step["alt"])
+        d = g.line_ellipsoid_intersect(*pos, arg, alt)
+        ctx.check(np.shape(d) == (1, 2), "shape/line_ellipsoid_intersect",
+                  lambda: "%s: %r" % (info(), np.shape(d)))
+        ref, rel = ref_intersect(*pos, A, E, alt)
+        if abs(rel) > 1e-6:
+            if ref is None:
+                ctx.check(np.all(np.isnan(d)), "intersect/hit-reported",
+                          lambda: "%s: %r although the line misses the "
+                          "ellipsoid" % (info(), d))
+                ctx.label("hist-intersect-miss")
+            else:
+                got = sorted(float(v) for v in np.ravel(d))
+                ctx.check(all(abs(p - q) <= 1e-9 * abs(q) + 1e-5
+                              for p, q in zip(got, ref)),
+                          "reference/line_ellipsoid_intersect", lambda: (
+                              "%s, za=%r alt=%r: roots %r, expected %r"
+                              % (info(), step["za"], alt, got, ref)))
+    elif op == "roundtrip":
+        lats = HIST_LATS
+        h, lon = float(step["h"]), float(step["lon"])
+        xyz = g.geodetic2cart(h, lats, lon, arg)
+        ref = ref_geodetic2cart(A, E, h, lats, lon)
+        err = max(_maxerr(xyz[i], ref[i]) for i in range(3))
+        ctx.check(err <= 1e-12 * (A + 1e6), "reference/geodetic2cart",
+                  lambda: "%s: |xyz - closed form| = %.3e m" % (info(), err))
+        h2, lat2, lon2 = g.cart2geodetic(*xyz, arg)
+        dh = float(np.max(np.abs(h2 - h)))
+        dl = max(float(np.max(np.abs(lat2 - lats))),
+                 float(np.max(np.abs(lon_diff(lon2, lon)))))
+        ctx.check(dh <= TOL_M and dl <= TOL_DEG,
+                  "roundtrip/geodetic-cart/derived", lambda: (
+                      "%s: errors %.3e m, %.3e deg" % (info(), dh, dl)))
+    elif op == "ellipsoid2d":
+        out = g.ellipsoid2d(arg, step["inc"])
+        eref = float(ref_ellipsoid2d_e(A, E, step["inc"]))
+        ctx.check(float(out[0]) == A
+                  and e2d_close(out[1], eref),
+                  "reference/ellipsoid2d", lambda: (
+                      "%s: ellipsoid2d(.., %r) = %r, expected (a, %r)"
+                      % (info(), step["inc"], out, eref)))
+    else:
+        out = g.ellipsoidcurvradius(arg, step["lat"], step["az"])
+        rref = float(ref_curvradius(A, E, step["lat"], step["az"]))
+        ctx.check(out[1] == 0 and abs(float(out[0]) - rref) <= 1e-12 * rref,
+                  "reference/ellipsoidcurvradius", lambda: (
+                      "%s: ellipsoidcurvradius(.., %r, %r) = %r, expected "
+                      "(%r, 0)" % (info(), step["lat"], step["az"], out,
+                                   rref)))
+
+
+def model_probe(ctx, g, name, el, where):
+    """cheap oracles for the model under test, run between history steps"""
+    a, e = float(el[0]), float(el[1])
+    lats = HIST_LATS
+    b = g.get_ellipsoid_semiminor_axis(el)
+    bref = float(LD(a) * np.sqrt(1 - LD(e) * LD(e)))
+    ctx.check(abs(float(b) - bref) <= 1e-14 * bref,
+              "reference/get_ellipsoid_semiminor_axis", lambda: (
+                  "%s %s: %r, expected %r" % (name, where, b, bref)))
+    rc = g.ellipsoid_r_geocentric(el, lats)
+    rd = g.ellipsoid_r_geodetic(el, lats)
+    e1 = _maxerr(rc, ref_r_geocentric(a, e, lats)) / a
+    e2 = _maxerr(rd, ref_r_geodetic(a, e, lats)) / a
+    ctx.check(e1 <= 1e-12, "reference/ellipsoid_r_geocentric", lambda: (
+        "%s %s: relative error %.3e" % (name, where, e1)))
+    ctx.check(e2 <= 1e-12, "reference/ellipsoid_r_geodetic", lambda: (
+        "%s %s: relative error %.3e" % (name, where, e2)))
+    return [np.asarray(b, float), np.asarray(rc, float),
+            np.asarray(rd, float)]
+
+
+def snapshot(g, el, H, LAT, LON):
+    """raw results of the functions under test, to compare the start and
+    the end of a history bit by bit"""
+    xyz = g.geodetic2cart(H, LAT, LON, el)
+    out = list(xyz) + list(g.cart2geodetic(*xyz, el))
+    r, latc, lonc = g.geodetic2geocentric(H, LAT, LON, el)
+    out += [r, latc, lonc, g.ellipsoid_r_geodetic(el, LAT),
+            g.ellipsoid_r_geocentric(el, latc),
+            g.get_ellipsoid_semiminor_axis(el)]
+    out += list(g.ellipsoid2d(el, 98.0))
+    out += list(g.ellipsoidcurvradius(el, 10.0, 30.0))
+    pos = g.geocentricposlos2cart(float(el[0]) + 600e3, 10.0, 20.0, 170.0,
+                                  40.0)
+    out.append(np.sort(g.line_ellipsoid_intersect(*pos, el, 0.0), axis=-1))
+    return [np.array(v, dtype=float) for v in out]
+
+
+def check_history(case, ctx):
+    """identity checks - history of calls on related ellipsoids - the same
+    identity checks again: every oracle against its own reference, and the
+    results of the model under test must not have changed"""
+    from typhon import geodesy as g
+    name = case["ell"]
+    el = g.ellipsoidmodels()[name]
+    ctx.label("history", name, "hist-len-%d" % min(len(case["steps"]), 8))
+    H = np.array(case["h"], float)
+    LAT = np.array(case["lat"], float)
+    LON = np.array(case["lon"], float)
+    first = case["first"]
+    if first == "model":
+        convert_checks(ctx, g, name, el, H, LAT, LON)
+        before = snapshot(g, el, H, LAT, LON)
+    else:
+        # the related ellipsoids are seen before the model itself
+        ctx.label("hist-derived-first")
+        before = None
+    for k, step in enumerate(case["steps"]):
+        history_step(ctx, g, el, step)
+        if step["probe"]:
+            model_probe(ctx, g, name, el, "after step %d" % k)
+    convert_checks(ctx, g, name, el, H, LAT, LON)
+    after = snapshot(g, el, H, LAT, LON)
+    if before is not None:
+        same = all(np.array_equal(p, q, equal_nan=True)
+                   for p, q in zip(before, after))
+        ctx.check(same, "history/result-changed", lambda: (
+            "%s: results before and after the history %r differ:\n%r\n%r"
+            % (name, [(s_["ell"], s_["op"]) for s_ in case["steps"]],
+               [v.tolist() for v in before], [v.tolist() for v in after])))
+    ctx.nontrivial = any(lab.startswith("hist-same-") for lab in ctx.labels)
+
+
+@st.composite
+def history_steps(draw, lo, hi):
+    n = draw(st.integers(lo, hi))
+    steps = []
+    for _ in range(n):
+        steps.append({
+            "ell": draw(st.sampled_from(HIST_ELLS)),
+            "op": draw(st.sampled_from(HIST_OPS)),
+            "as": draw(st.sampled_from(["tuple", "tuple", "list", "array"])),
+            "e": draw(st.one_of(st.floats(0.0, 0.3), st.sampled_from(
+                [0.0, 0.0818191908426, 0.1083]))),
+            "scale": draw(st.sampled_from([0.5, 2.0, 1.001])),
+            "other": draw(st.sampled_from(ELLIPSOIDS)),
+            "inc": draw(st.one_of(st.floats(1.0, 179.0),
+                                  st.sampled_from([90.0, 98.0, 45.0]))),
+            "lat": draw(st.one_of(st.floats(-88.0, 88.0),
+                                  st.sampled_from([0.0, 0.0, 45.0, 88.0]))),
+            "az": draw(st.one_of(st.floats(0.0, 360.0),
+                                 st.sampled_from([90.0, 90.0, 0.0, 270.0]))),
+            "lon": draw(st.floats(-180.0, 180.0)),
+            "za": draw(st.one_of(st.floats(150.0, 179.0),
+                                 st.floats(1.0, 60.0))),
+            "alt": draw(st.sampled_from([0.0, 0.0, 1e4, 3e4])),
+            "h": draw(st.sampled_from([0.0, -1e4, 1e5, 1e6, 777.7])),
+            "probe": draw(st.booleans()),
+        })
+    return steps
+
+
+@st.composite
+def history_cases(draw):
+    n = draw(st.integers(1, 6))
+    return {
+        "ell": draw(st.sampled_from(ELLIPSOIDS + ["WGS84", "WGS84",
+                                                  "EllipsoidMars",
+                                                  "EllipsoidMars"])),
+        "first": draw(st.sampled_from(["model", "derived"])),
+        "steps": draw(history_steps(1, 8)),
+        "lat": draw(st.lists(lat_values(), min_size=n, max_size=n)),
+        "lon": draw(st.lists(lon_values(), min_size=n, max_size=n)),
+        "h": draw(st.lists(h_values(), min_size=n, max_size=n)),
+    }
 
 
 # --------------------------------------------------------------------------
@@ -820,9 +1166,11 @@ def distance_cases(draw):
 def suites(tier):
     return [
         Suite("convert", check_convert, strategy=convert_cases(),
-              examples={"quick": 1500, "thorough": 12000}),
+              examples={"quick": 1300, "thorough": 12000}),
         Suite("special-grid", check_convert, cases=special_grid_cases,
               exhaustive=True),
+        Suite("history", check_history, strategy=history_cases(),
+              examples={"quick": 500, "thorough": 5000}),
         Suite("los", check_los, strategy=los_cases(),
               examples={"quick": 1200, "thorough": 10000}),
         Suite("distance", check_distance, strategy=distance_cases(),
